@@ -27,6 +27,8 @@ type WOp struct {
 	V    []byte `json:"v,omitempty"`
 	N    int    `json:"n,omitempty"` // collapse level / variant / block
 	Sync bool   `json:"sync,omitempty"`
+	R    bool   `json:"r,omitempty"` // commit (C11): every storage read made while Commit() runs fails (the existence probes of the nodes it saves)
+	E    bool   `json:"e,omitempty"` // commit / gc: the batch write fails once with an injected I/O error (nothing applied) and is tried again
 	D    bool   `json:"d,omitempty"` // commit: keep the batch unwritten until after the next Commit() (pipelined batches)
 	S    []int  `json:"s,omitempty"` // key index list (export)
 	A    int    `json:"a,omitempty"` // tamper argument
@@ -143,24 +145,26 @@ type commitRec struct {
 }
 
 type world struct {
-	s         *WScript
-	prop      string
-	keys      [][]byte
-	pending   []pendingBatch // C11: batches returned by Commit() that the caller has not written yet
-	kv        *simkv.Store
-	db        storage.StorageAdapter
-	peb       *pebbleEnv
-	t         *wmpt.WeightedMerkleTrie
-	model     map[string]refwmpt.Entry
-	last      map[int][]byte // last value written per key index (for re_add)
-	clean     bool           // no mutation since the last commit
-	dirtyRead bool           // Root() was read while dirty in this window
-	commits   []commitRec
-	stats     sim.Stats
-	log       *sim.Log
-	v         *sim.Violation
-	step      int
-	states    map[string]bool
+	rolledBack bool // the last state change was a rollback (C13: the state it returned to is re-checked after collector passes)
+	opE        bool // the running gc op carries an injected write error
+	s          *WScript
+	prop       string
+	keys       [][]byte
+	pending    []pendingBatch // C11: batches returned by Commit() that the caller has not written yet
+	kv         *simkv.Store
+	db         storage.StorageAdapter
+	peb        *pebbleEnv
+	t          *wmpt.WeightedMerkleTrie
+	model      map[string]refwmpt.Entry
+	last       map[int][]byte // last value written per key index (for re_add)
+	clean      bool           // no mutation since the last commit
+	dirtyRead  bool           // Root() was read while dirty in this window
+	commits    []commitRec
+	stats      sim.Stats
+	log        *sim.Log
+	v          *sim.Violation
+	step       int
+	states     map[string]bool
 
 	syncedCommits int
 	// value-node hashes that were retired by one key while another live key held the
